@@ -765,6 +765,10 @@ class _PCovCUR(GreedySelector):
         features, orthogonalizes the features by those already selected, and computes
         their initial importance.
         """
+        # the targets are re-explained from the data of THIS call; the arrays of the
+        # earlier fit may have been re-used by the caller in the meantime
+        self.X_ref_ = X
+        self.y_ref_ = y
         for c in self.selected_idx_:
             # the residual of an already selected item is round-off, whose size scales
             # with the data and with the precision of the working array (float32
